@@ -69,6 +69,19 @@ pub fn c05_cases(rng: &mut Rng, tier: &str) -> (Vec<Case>, bool) {
     for d in fixed {
         cases.push(Case { ops: vec![analyze_op(d)], checks: vec!["analysis-wellformed 0".into()], tag: "fixed".into(), nontrivial: true, show: format!("{:?}", d) });
     }
+    // nesting thousands deep, every nesting construct (an unbounded recursion aborts the process)
+    for n in [1200usize, 4000] {
+        for d in [
+            format!("10 PRINT {}1{}", "(".repeat(n), ")".repeat(n)),
+            format!("10 PRINT {}1{}", "A(".repeat(n), ")".repeat(n)),
+            format!("10 PRINT {}1{}", "ABS(".repeat(n), ")".repeat(n)),
+            format!("10 {}PRINT 1", "IF 1 THEN ".repeat(n)),
+            format!("10 X({}1{}) = 1", "B(".repeat(n), ")".repeat(n)),
+            format!("10 DEF FNA(X) = {}1{}\n20 PRINT FNA(1)", "(".repeat(n), ")".repeat(n)),
+        ] {
+            cases.push(Case { ops: vec![analyze_op(&d)], checks: vec!["analysis-wellformed 0".into()], tag: "very-deep".into(), nontrivial: true, show: format!("{}… ({} levels)", d.chars().take(30).collect::<String>(), n) });
+        }
+    }
     for _ in 0..n {
         let d = document(rng);
         let kinds = d.split(['\n', '\r']).count();
@@ -140,6 +153,31 @@ pub fn c06_cases(rng: &mut Rng, tier: &str) -> (Vec<Case>, bool) {
         w.state();
         let b = w.last();
         cases.push(Case { ops: w.ops, checks: vec![format!("agree-straight {} {}-{}", ai, a, b)], tag: "straight-line".into(), nontrivial: true, show: text });
+    }
+    // many rejected lines (nested to different depths) followed by a valid straight-line line: the rejection of
+    // earlier lines must not make the analyzer reject the valid one
+    for _ in 0..(n / 10).max(8) {
+        let k = rng.range(3, 60);
+        let mut lines = vec![];
+        for i in 0..k {
+            let depth = rng.range(0, 12);
+            let bad = rng.pick(&["\"A\" + 1", "1 + \"A\"", "X$ * 2", "-\"s\"", "1 +", ")"]);
+            lines.push(format!("{} X = {}{}{}", (i + 1) * 10, "(".repeat(depth), bad, ")".repeat(depth)));
+        }
+        let good = rng.pick(&["PRINT 1", "Y = 2 + 3", "PRINT ((1))", "Z$ = \"ok\""]);
+        lines.push(format!("9000 {}", good));
+        let text = lines.join("\n");
+        let mut w = Walk::new(false, false);
+        w.op(&analyze_op(&text));
+        let ai = w.last();
+        w.start(&format!("10 {}", good));
+        let a = w.ops.len();
+        w.start("RUN");
+        let mut nr = 0;
+        w.drive(&[], &mut nr, 20, false);
+        w.state();
+        let b = w.last();
+        cases.push(Case { ops: w.ops, checks: vec![format!("no-error-on-line {} {} {}-{}", ai, k, a, b)], tag: "valid-after-rejected".into(), nontrivial: true, show: format!("{} rejected lines then {:?}", k, good) });
     }
     // small programs: no analysis error => no syntax / type / undefined-line failure at run time, on several input scripts
     let opts = GenOpts { allow_else_resume: false, ..Default::default() };
